@@ -575,7 +575,7 @@ pub fn run(args: &Args) {
     // (1) directed scripts, both roles
     for sc in directed() { for role in [true, false] { emit_session(&mut run, &rt, role, &sc); } }
     // (2) random sessions
-    let nsess = if args.tier_thorough { 400 } else { 50 };
+    let nsess = if args.tier_thorough { 15000 } else { 50 };
     for _ in 0..nsess {
         let role = rng.chance(1, 2);
         let n = rng.range(4, 24) as usize;
@@ -584,7 +584,7 @@ pub fn run(args: &Args) {
         emit_session(&mut run, &rt, role, &script);
     }
     // (3) all single-bit flips of genuine records (thorough: every bit of 3 records; quick: 256 sampled)
-    let flips: Vec<u32> = if args.tier_thorough { (0..(13 + 8 + 16 + 16) * 8).collect() } else { (0..256).map(|_| rng.below((13 + 8 + 16 + 16) * 8) as u32).collect() };
+    let flips: Vec<u32> = if args.tier_thorough { (0..3).flat_map(|_| 0..(13 + 8 + 16 + 16) * 8).collect() } else { (0..256).map(|_| rng.below((13 + 8 + 16 + 16) * 8) as u32).collect() };
     for chunk in flips.chunks(32) {
         let script: Vec<(Inj, bool)> = chunk.iter().map(|b| (Inj::Captured { len: 16, mutation: Mut::Flip(*b) }, false)).collect();
         emit_session(&mut run, &rt, rng.chance(1, 2), &script);
@@ -592,11 +592,12 @@ pub fn run(args: &Args) {
     // (3b) a sender exactly between the publication statements
     pub_cases(&mut run, &rt, if args.tier_thorough { 10 } else { 2 });
     // (4) record decoder
-    dec_cases(&mut run, &mut rng, if args.tier_thorough { 20000 } else { 3000 });
+    dec_cases(&mut run, &mut rng, if args.tier_thorough { 200000 } else { 3000 });
     // (5) concurrent senders
     drop(rt);
     let conc: Vec<(usize, usize, bool, bool)> = if args.tier_thorough {
-        vec![(1, 1, false, true), (2, 50, false, true), (4, 100, true, true), (8, 100, false, true), (16, 200, false, true), (16, 50, true, false), (3, 7, true, true)]
+        vec![(1, 1, false, true), (2, 50, false, true), (4, 100, true, true), (8, 100, false, true), (16, 200, false, true), (16, 50, true, false), (3, 7, true, true),
+             (16, 200, true, true), (12, 150, false, true), (5, 200, true, true), (9, 33, false, false), (16, 100, false, true), (7, 77, true, true)]
     } else { vec![(1, 1, false, true), (4, 20, true, true), (8, 25, false, true), (16, 10, false, false)] };
     for (t, s, b, c) in conc { conc_case(&mut run, t, s, b, c); }
     run.notes.insert("scope".into(), serde_json::json!("sessions = fresh real DtlsTransport pair, connected through the harness proxy, then injections at one endpoint; oracle table = AES-128-GCM results computed by the harness from RFC nonce/AAD"));
